@@ -136,6 +136,11 @@ var ErrJobStuck = errors.New("job stuck")
 
 var worlds sync.Map // *manager.Manager -> *World
 
+// UseWatchDir makes every world started afterwards watch <dir>/watch for dropped captures (the
+// service's watch directory).  Only the free-running race pass switches it on: the watcher's timers
+// are real time and not owned by the explorer.
+var UseWatchDir bool
+
 // A manager starts background jobs from inside manager.New, before the harness knows its address.
 // Starts are serialised; while one is in progress a Point of an unknown manager that was not
 // retired before can only come from the manager being created and is adopted by the starting world.
@@ -311,7 +316,16 @@ func (w *World) start() error {
 	w.mu.Unlock()
 	startMu.Lock()
 	adopting.Store(w)
-	mgr, err := manager.New(w.PcapDir, w.IndexDir, w.SnapDir, w.StateDir, w.ConvDir, "")
+	watch := ""
+	if UseWatchDir {
+		watch = filepath.Join(w.Dir, "watch")
+		if err := os.MkdirAll(watch, 0o755); err != nil {
+			adopting.Store(nil)
+			startMu.Unlock()
+			return err
+		}
+	}
+	mgr, err := manager.New(w.PcapDir, w.IndexDir, w.SnapDir, w.StateDir, w.ConvDir, watch)
 	if err == nil {
 		worlds.Store(mgr, w)
 		// the start-up closure of New has been received by the service loop but may still be
